@@ -70,11 +70,13 @@ def h_relabel(ci):
     def h(c):
         cls = classes()[ci]
         d, vals = mapping(c, 'd', cls); snap = dict(vals)
-        how = c.pick('how', ['suffix', 'prefix', 'callable', 'kw', 'dict'])
+        how = c.pick('how', ['suffix', 'prefix', 'callable', 'kw', 'dict', 'swap', 'chain'])
         if how == 'suffix': r = d.relabel('_x'); f = lambda k: k + '_x'
         elif how == 'prefix': r = d.relabel('y_'); f = lambda k: 'y_' + k
         elif how == 'callable': r = d.relabel(lambda k: k.upper()); f = lambda k: k.upper()
         elif how == 'kw': r = d.relabel(a = 'z'); f = lambda k: 'z' if k == 'a' else k
+        elif how == 'swap': r = d.relabel(a = 'b', b = 'a'); f = lambda k: dict(a = 'b', b = 'a').get(k, k)              # renames are simultaneous: two labels can be swapped
+        elif how == 'chain': r = d.relabel(dict(a = 'b', b = 'c', c = 'zz')); f = lambda k: dict(a = 'b', b = 'c', c = 'zz').get(k, k)
         else: r = d.relabel(dict(b = 'w', q = 'nothing')); f = lambda k: 'w' if k == 'b' else k
         c.check('relabel', same_items(r, {f(k): v for k, v in vals.items()}) and type(r) is cls and r is not d)
         c.check('d-unchanged', same_items(d, snap))
@@ -152,7 +154,7 @@ def obligations(tier):
         for nsel in range(3):
             obs.append(Ob('algebra.%s.sel%d' % (names[ci], nsel), h_algebra(ci), pins = {'sel.n': nsel}, budget_s = 300 if q else 1200,
                           desc = 'd - keys, d & keys, d[keys], d[k1,k2], d + other, attribute access, class kept, d unchanged (%s, %d selected keys)' % (names[ci], nsel)))
-        obs.append(Ob('relabel.%s' % names[ci], h_relabel(ci), budget_s = 300, desc = 'relabel (suffix, prefix, callable, keyword, dict) returns a new mapping of the same class'))
+        obs.append(Ob('relabel.%s' % names[ci], h_relabel(ci), budget_s = 300, desc = 'relabel (suffix, prefix, callable, keyword, dict, a swap of two labels, a chain a->b->c) returns a new mapping of the same class with all renames applied at once'))
     keys = ['p', 'q', 'r'] if q else ['p', 'q', 'r', 's']
     opts = argsets(keys)
     for i, a in enumerate(opts):
